@@ -48,11 +48,44 @@ def parse(s):
     return rec()
 
 
+BIG = 10 ** 4000
+
+
+def big_int(s):
+    """int(s) without the interpreter's digit limit (which is left at its default: the implementation under test runs in
+    this process and its behaviour at that limit is part of what is checked)"""
+    s = s.strip()
+    if len(s) <= 4000:
+        return int(s)
+    neg = s.startswith("-")
+    ds = s.lstrip("+-")
+    v = 0
+    for i in range(0, len(ds), 4000):
+        chunk = ds[i:i + 4000]
+        v = v * 10 ** len(chunk) + int(chunk)
+    return -v if neg else v
+
+
+def big_str(n):
+    """str(n) for an int of any size"""
+    if -BIG < n < BIG:
+        return str(n)
+    neg, n = n < 0, abs(n)
+    out = []
+    base = BIG
+    while n:
+        n, r = divmod(n, base)
+        out.append(str(r).rjust(4000, "0") if n else str(r))
+    return ("-" if neg else "") + "".join(reversed(out))
+
+
 def dump(x):
     if isinstance(x, (list, tuple)):
         return "(" + " ".join(dump(y) for y in x) + ")"
     if isinstance(x, bool):
         return "true" if x else "false"
+    if isinstance(x, int):
+        return big_str(x)
     return str(x)
 
 
@@ -98,9 +131,9 @@ def sx2j(x):
         return False
     tag = x[0]
     if tag == "i":
-        return int(x[1])
+        return big_int(x[1])
     if tag == "f":
-        fr = Fraction(int(x[1]), int(x[2]))
+        fr = Fraction(big_int(x[1]), big_int(x[2]))
         return float(fr)
     if tag == "s":
         return sx2s(x)
